@@ -185,7 +185,8 @@ def run_tlc(module, cfg, outfile, env=None, workers=None, timeout=3600, metadir=
         e.update(env)
     metadir = metadir or (outfile + ".md")
     shutil.rmtree(metadir, ignore_errors=True)
-    cmd = ["java", "-XX:+UseParallelGC", "-Xmx" + heap, "-cp", TLC_JAR, "tlc2.TLC",
+    # (-Xss on the command line too: the launcher sizes the main thread, which computes the initial states, from it)
+    cmd = ["java", "-Xss" + xss, "-XX:+UseParallelGC", "-Xmx" + heap, "-cp", TLC_JAR, "tlc2.TLC",
            "-workers", str(workers or NCPU), "-metadir", metadir, "-cleanup", "-noGenerateSpecTE",
            "-config", cfg] + list(extra) + [module]
     t0 = time.time()
